@@ -42,7 +42,7 @@ ASSUMPTIONS = [
 TIMEOUT = {"quick": 40, "thorough": 90}
 DEADLINE = {"quick": 100, "thorough": 1500}
 MIN_DECIDING = {"quick": 100, "thorough": 1500}
-PER_FAMILY = {"quick": 13, "thorough": 500}
+PER_FAMILY = {"quick": 13, "thorough": 400}
 N_SYM = {"quick": 25, "thorough": 200}
 N_TRANSFORM = {"quick": 38, "thorough": 380}
 
@@ -109,6 +109,10 @@ class Leftover(Exception):
     pass
 
 
+class Imprecise(Exception):
+    """sympy could not evaluate Polar's expression to the requested number of digits (harness limit, never a verdict)"""
+
+
 def mpq(x):
     if isinstance(x, Fraction):
         return mp.mpf(x.numerator) / x.denominator
@@ -144,7 +148,7 @@ def to_value(x, digits=45):
         return Fraction(int(e.p), int(e.q))
     if e.has(sympy.nan) or e.has(sympy.zoo) or e.has(sympy.oo):
         raise NotANumber(str(e)[:80])
-    v = sympy.N(e, digits)
+    v = e.evalf(digits, maxn=4000)
     if v.has(sympy.nan) or v.has(sympy.zoo) or v.has(sympy.oo):
         raise NotANumber(str(v)[:80])
     if v.is_Rational:
@@ -152,6 +156,13 @@ def to_value(x, digits=45):
     re, im = v.as_real_imag()
     if not (re.is_Number and im.is_Number):
         raise NotANumber(str(v)[:80])
+    # evalf silently returns fewer digits when cancellation defeats it: accept a component only at full precision,
+    # or when it is negligible against the other one
+    need = int(digits * 3.32) - 12
+    mags = [abs(c) for c in (re, im)]
+    for c, other in ((re, mags[1]), (im, mags[0])):
+        if c.is_Float and c._prec < need and not (other > 0 and abs(c) < other * sympy.Float(10) ** -(digits - 3)):
+            raise Imprecise(f"only {c._prec} bits for {str(e)[:60]}")
     with mp.workdps(60):
         r, i = mp.mpf(str(re)), mp.mpf(str(im))
     if i != 0:
@@ -315,12 +326,31 @@ def moment_key(law, k, polar_val, ref, params_sym=None):
         except Exception:
             pass
     if fam == "TruncNormal":
-        z, al, be = trunc_mass(law)
-        # tail or very narrow window: Phi(beta)-Phi(alpha) (and the matching numerator) is a difference of nearly equal
-        # numbers that get_moment evaluates in double precision (float(m[k])) -> relative error ~ 1e-16 / mass
-        if z < mp.mpf(10) ** -3:
-            return "truncnormal-small-window-mass-double-cancellation"
+        # get_moment builds the exact recursion symbolically and then evaluates it with float(m[k]).  Diagnostic: the same
+        # recursion evaluated with 100 digits reproduces the true moment, i.e. the formula is right and the deviation
+        # (> 1e-12) is the double-precision evaluation cancelling (small window mass Phi(beta)-Phi(alpha), or a window
+        # narrow against sigma at high order)
+        try:
+            hp = trunc_recursion_hp(law, k)
+            with mp.workdps(60):
+                if abs(hp - mpq(ref)) <= mp.mpf(10) ** -20 * max(abs(mpq(ref)), abs(hp)):
+                    return "truncnormal-double-precision-cancellation"
+        except Exception:
+            pass
     return None
+
+
+def trunc_recursion_hp(law, k):
+    """the recursion of TruncNormal.get_moment (Orjebin) evaluated with 100 significant digits"""
+    with mp.workdps(100):
+        mu, s2, a, b = [mp.mpf(p.numerator) / p.denominator for p in law[1:]]
+        s = mp.sqrt(s2)
+        al, be = (a - mu) / s, (b - mu) / s
+        z = mp.ncdf(be) - mp.ncdf(al)
+        m = {-1: mp.mpf(0), 0: mp.mpf(1)}
+        for i in range(1, k + 1):
+            m[i] = (i - 1) * s2 * m[i - 2] + mu * m[i - 1] - s * (b ** (i - 1) * mp.npdf(be) - a ** (i - 1) * mp.npdf(al)) / z
+        return +m[k]
 
 
 # ---------------------------------------------------------------------------------------------- checks on one distribution object
@@ -363,6 +393,9 @@ def compare_moment(ctx, law, k, m, label="", subs=None):
     except NotANumber as ex:
         ctx.viol("moment-not-a-number", None, f"{label}{fam}{plist(law)} moment {k} is {ex}", k=k)
         ctx.comparisons += 1
+        return
+    except Imprecise:
+        ctx.skip("polar-value-evalf-imprecise")
         return
     ref = true_moment(law, k)
     ctx.comparisons += 1
@@ -490,6 +523,9 @@ def check_transform_values(ctx, dist, law, which, ts, budget, subs=None):
         except NotImplementedError as exc:
             ctx.refuse(exc)
             return
+        except Imprecise:
+            ctx.skip("polar-value-evalf-imprecise")
+            continue
         except Exception as exc:
             ctx.refuse(exc)
             continue
@@ -542,7 +578,7 @@ def derivative_at_zero(expr, tsym, k, cache):
 def check_derivatives(ctx, dist, law, which, kmax, budget, subs=None):
     """k-th derivative of cf/mgf at 0 reproduces i^k m_k / m_k (k = 1..kmax); plus the first derivative at one t != 0"""
     import sympy
-    tsym = sympy.Symbol("t", real=True)
+    tsym = sympy.Symbol("t")  # as in FunctionalAssignment.get_trig_moment / get_exp_moment
     try:
         with soft_limit(budget):
             e = getattr(dist, which)(tsym)
@@ -560,6 +596,19 @@ def check_derivatives(ctx, dist, law, which, kmax, budget, subs=None):
     if g is None or g.has(sympy.Integral):
         ctx.skip(f"{which}-derivative-unavailable")
         return (tsym, e)
+    if which == "cf":
+        # observation only (belongs to the functions-of-draws property): the way FunctionalAssignment.get_trig_moment takes
+        # the derivative at 0, diff(cf(t), t, k).xreplace({t: 0}), on the expression as returned
+        try:
+            with soft_limit(budget):
+                pv0 = to_value(sympy.diff(e, tsym, 1).xreplace({tsym: sympy.Integer(0)}))
+            m1 = true_moment(law, 1)
+            if not close(pv0, mp.mpc(0, 1) * mpq(m1), mp.mpf(10) ** -15, mp.mpf(10) ** -15):
+                ctx.notes.append("cf-derivative-by-xreplace-at-zero-wrong-value")
+        except NotANumber:
+            ctx.notes.append("cf-derivative-by-xreplace-at-zero-nan")
+        except (SoftTimeout, Exception):
+            pass
     cache = {"kmax": kmax}
     for k in range(1, kmax + 1):
         try:
@@ -572,6 +621,9 @@ def check_derivatives(ctx, dist, law, which, kmax, budget, subs=None):
         except (NotANumber, Leftover) as ex:
             ctx.comparisons += 1
             ctx.viol(f"{which}-derivative-not-a-number", None, f"{law[0]}{plist(law)}: d^{k}/dt^{k} {which}(t) at 0 is {ex}")
+            continue
+        except Imprecise:
+            ctx.skip("polar-value-evalf-imprecise")
             continue
         except Exception:
             ctx.skip(f"{which}-derivative-sympy-error")
@@ -606,6 +658,9 @@ def check_cf_derivative_away(ctx, law, tsym_expr, t, budget):
     except (NotANumber, Leftover) as ex:
         ctx.comparisons += 1
         ctx.viol("cf-derivative-not-a-number", None, f"{law[0]}{plist(law)}: d/dt cf(t) at t={t} is {ex}")
+        return
+    except Imprecise:
+        ctx.skip("polar-value-evalf-imprecise")
         return
     except Exception:
         ctx.skip("cf-derivative-sympy-error")
@@ -753,6 +808,8 @@ def run_sym(case, tier):
                 ctx.notes.append("moment-cache-stale-after-subs")
         except (Leftover, NotANumber):
             ctx.notes.append("moment-cache-stale-after-subs")
+        except Imprecise:
+            pass
         except Exception as e:
             ctx.refuse(e)
     return ctx.result(sample)
@@ -785,7 +842,8 @@ def polar_law(dist, vals):
     ps = []
     for a in names:
         v = to_sympy(getattr(dist, a)).subs(subs)
-        v = sympy.nsimplify(v) if not v.is_Rational else v
+        if v.is_Float:
+            v = sympy.Rational(str(v))
         if not v.is_Rational:
             raise ValueError(f"base parameter {a}={v} not rational")
         ps.append(Fraction(int(v.p), int(v.q)))
@@ -874,14 +932,19 @@ def run_transform(case, tier):
                 for (j,), c in pl.terms():
                     bm = laws.raw_moment(blaw, j)
                     tot += c * sym_rational(bm)
-            tot = sympy.nsimplify(sympy.expand(tot)) if not tot.is_Rational else tot
+            tot = sympy.expand(tot)
             ref = laws.raw_moment(law, k)
             ctx.comparisons += 1
             if tot.is_Rational:
                 pv = Fraction(int(tot.p), int(tot.q))
                 ok = pv == ref
             else:
-                pv = to_value(tot)
+                try:
+                    pv = to_value(tot)
+                except Imprecise:
+                    ctx.comparisons -= 1
+                    ctx.skip("polar-value-evalf-imprecise")
+                    continue
                 ok = close(pv, ref, mp.mpf(10) ** -38)
             if len(ctx.rows) < 4 and k in (1, 4):
                 ctx.rows.append({"what": f"{label}E[({poly.polynomials[0]})^{k}], {draw.variable}~{type(draw.distribution).__name__}{plist(blaw)}",
